@@ -372,7 +372,14 @@ def run(res):
     name = "correspondence:cached_source(every observed trace is a run of the transition system; each report equals the one produced alone)"
     res.obligations.append(name)
     cfg_lines = contend_configs(res.tier, res.seed)
-    out = vlib.run_harness("rt", setup_files() + cfg_lines, env_extra={"RT_QUIET": "1"})[len(FILES):]
+    out, hung = vlib.run_harness_or_hang("rt", setup_files(), cfg_lines, env_extra={"RT_QUIET": "1"},
+                                          timeout=90 if res.tier == "quick" else 900)
+    if hung:
+        f = hung.split("\t")
+        res.violation("failing-input", "failing assertions never get their report (deadlock or hang while the report is formatted): %s round(s) of "
+                      "threads failing in %s" % (f[1] if len(f) > 1 else "?", ", ".join(unhx(x).decode() for x in f[3:]) if len(f) > 3 else hung),
+                      {"case_line": hung, "hang": True})
+        return
     cases, impl, mreq, meta = [], [], [], []
     races = 0
     for cl, o in zip(cfg_lines, out):
@@ -443,6 +450,10 @@ def replay(res, path):
     if not ok:
         raise vlib.CheckError("harness rt does not build: " + out[-1500:])
     line = v.get("case_line") or v.get("first_disagreement", {}).get("case_line") or ("guard\t" + v["ops"] if "ops" in v else None)
+    if v.get("hang"):
+        out, hung = vlib.run_harness_or_hang("rt", setup_files(), [line], env_extra={"RT_QUIET": "1"}, timeout=30)
+        print("the case", "never finishes (violation)" if hung else "finishes: property holds on this input")
+        return 1 if hung else 0
     if line and line.startswith("guard"):
         impl = vlib.run_harness("rt", [line])
         why = guard_oracle(line, impl[0])
